@@ -352,6 +352,14 @@ class ExtractMethod(ast.NodeTransformer):
         return node
 
 
+class AugToAssign(ast.NodeTransformer):
+    """x OP= y -> x = x OP y   (every augmented assignment of the package works on a local value or an element of a local container)"""
+
+    def visit_AugAssign(self, node):
+        load = ast.parse(ast.unparse(node.target), mode="eval").body
+        return ast.Assign(targets=[node.target], value=ast.BinOp(left=load, op=node.op, right=node.value))
+
+
 class ExplicitDefaults(ast.NodeTransformer):
     """library calls get their documented default keywords spelled out (np.meshgrid(..., indexing="xy"), .groupby(..., sort=True), ...)"""
 
@@ -414,6 +422,8 @@ def transformed(kind, root="/repo/verde", texts=None):
                 tree = Hoist().visit(tree)
             if k == "extract-method":
                 tree = ExtractMethod().visit(tree)
+            if k == "aug-to-assign":
+                tree = AugToAssign().visit(tree)
             if k == "explicit-defaults":
                 tree = ExplicitDefaults().visit(tree)
             if k == "extract-helper":
